@@ -15,15 +15,15 @@ type Binding struct {
 
 // Env is the context in which a spec expression is translated.
 type Env struct {
-	g          *Gen
-	pkg        string
-	vars       map[string]Binding
-	st         *State
-	old        *State
-	resolve func(name string, st *State) (Term, Ty, bool)
-	macroDepth int
-	freshFloor string
-	reidx      map[string]reidxInfo
+	g           *Gen
+	pkg         string
+	vars        map[string]Binding
+	st          *State
+	old         *State
+	resolve     func(name string, st *State) (Term, Ty, bool)
+	macroDepth  int
+	freshFloor  string
+	reidx       map[string]reidxInfo
 	resolveAddr func(name string) (string, types.Type, bool)
 }
 
